@@ -218,6 +218,72 @@ theorem unflagged_is_conventional (p : Params α) (hours : Hours α) (env : Env 
               exact ⟨hv.1, by simp [Hours.toPH, flagOf_conv]⟩
             · rw [hfl] at hv; simp at hv
 
+/-! ### the seventh entry: Imsaak -/
+
+/-- **an Imsaak that is not flagged extreme did not come from the fallback**: it is the time of the
+    Fajr of the Imsaak-adjusted parameters (Fajr angle + Imsaak angle, resp. the interval forms),
+    and that Fajr is itself not flagged.  (Before the `fix:` commit that flags the fallback this
+    was false: at 48 N on the June solstice with the MWL angles the tool printed Imsaak = Fajr
+    - 1.5 min, unflagged, although the Sun never reaches 19.5 degrees.) -/
+theorem imsaak_unflagged_not_fallback (p : Params α) (run : Params α → Except Panic (PHours α)) (t : PT)
+    (h : imsaakOf p run = .ok (some t)) (hf : t.extreme = false) :
+    ∃ h1, run (imsaakParams1 p) = .ok h1 ∧ fajrExtreme h1 = false ∧
+      optTime (imsaakParams1 p) .Fajr h1.fajr = .ok (some t) := by
+  unfold imsaakOf at h
+  split at h
+  · simp at h
+  · rename_i h1 hr1
+    refine ⟨h1, hr1, ?_⟩
+    simp only at h
+    split at h
+    · simp at h
+    · rename_i redo hredo
+      cases redo with
+      | true =>
+        simp only [if_true] at h
+        split at h
+        · simp at h
+        · have := (C12aux_flag _ t h)
+          rw [this] at hf; simp at hf
+      | false =>
+        simp only [Bool.false_eq_true, if_false] at h
+        refine ⟨?_, h⟩
+        cases he : fajrExtreme h1
+        · rfl
+        · simp [he] at hredo
+where
+  C12aux_flag (r : Except Panic (Option PT)) (t : PT) (h : flagExtreme r = .ok (some t)) : t.extreme = true := by
+    unfold flagExtreme at h
+    split at h
+    · simp only [Except.ok.injEq, Option.some.injEq] at h; subst h; rfl
+    · rename_i hne; exact absurd h (by intro h'; exact hne t h')
+
+/-- **… and therefore equals the conventional time**: with the policy layer of the real code, the
+    unflagged Fajr of the adjusted parameters is the conventional Fajr at those parameters
+    (`unflagged_is_conventional`), so an unflagged Imsaak is the clock time of the conventional
+    Fajr at the sum angle - under every policy -/
+theorem imsaak_unflagged_is_conventional (p : Params α) (hours : Hours α) (env : Env α) (c : PHours α) (t : PT)
+    (run : Params α → Except Panic (PHours α))
+    (hrun : run (imsaakParams1 p) = adjForExtLat (imsaakParams1 p) hours env)
+    (hex : ExclNoIntervals (imsaakParams1 p))
+    (hNLf : ∀ l, (imsaakParams1 p).policy = .NearestLatitudeAllPrayersAlways l → (env.nearLatHours l).fajr.isSome = true)
+    (hNLi : ∀ l, (imsaakParams1 p).policy = .NearestLatitudeAllPrayersAlways l → (env.nearLatHours l).isha.isSome = true)
+    (hc : conventional (imsaakParams1 p) hours env = .ok c)
+    (h : imsaakOf p run = .ok (some t)) (hf : t.extreme = false) :
+    optTime (imsaakParams1 p) .Fajr c.fajr = .ok (some t) := by
+  obtain ⟨h1, hr1, he, ht⟩ := imsaak_unflagged_not_fallback p run t h hf
+  rw [hrun] at hr1
+  have hu := (unflagged_is_conventional (imsaakParams1 p) hours env h1 c hex hNLf hNLi hr1 hc).1
+  cases hfj : h1.fajr with
+  | none => rw [hfj] at ht; simp [optTime] at ht
+  | some ph =>
+    have hfl : ph.extreme = false := by simpa [fajrExtreme, hfj] using he
+    have : h1.fajr = some ⟨ph.value, false⟩ := by rw [hfj, ← hfl]
+    have hcf := hu ph.value this
+    rw [hcf]
+    rw [this] at ht
+    exact ht
+
 -- non-vacuity: the six policies and the angle-based parameter sets meet the hypotheses
 example : isInvalidOnly (Policy.HalfOfNightFajrIshaInvalid : Policy α) = true := rfl
 example : ExclNoIntervals ({ (default : Params Float) with policy := .SeventhOfNightFajrIshaInvalid }) := by
